@@ -75,6 +75,8 @@ def run(ctx):
             kinds = {'values': 'array_of', 'domain': 'domain', 'self': None}
         if 'out' in fi.params:
             kinds['out'] = None
+        if name in BINARY and len(fi.params) > 1:
+            kinds[fi.params[1]] = 'factor'     # by protocol the operand is a Factor on the non-scalar path
         ty = LayoutTyper(fi, report, param_kinds=kinds)
         if 'out' in fi.params:     # contract: out is a factor over self.domain (checked at call sites below)
             ty.env0['out'] = V('fac', ('domof', 'self'), deps={'out'})
